@@ -44,6 +44,11 @@ def imp_file(r, path, N, kind):
             for k in range(N):
                 fh.write(b"%d %g %g\n" % (k * 10 ** 15 if k % 3 == 0 else k, r.uniform(0, 10), r.uniform(-10, 10)))
             return
+        elif kind == "huge":
+            # readable numbers at the edge of single precision: the wake potential overflows to inf/NaN
+            for k in range(N):
+                fh.write(b"%d %s %s\n" % (k, r.choice([b"1e38", b"3e38", b"-1e38", b"1e30"]), r.choice([b"1e38", b"-3e38", b"1e25"])))
+            return
         elif kind == "dupline":
             for k in range(N):
                 fh.write(b"%d 1.0 2.0\n" % (k // 2))
@@ -132,7 +137,7 @@ def gen(seed, i, tier, force=None):
         if r.chance(0.3):
             o["alpha1"] = r.choice([0.1, -1.0])
     if cls in ("impfile",):
-        kinds = ["exact", "short", "short", "long", "empty", "missing", "onecol", "text", "nan", "hugeline", "dupline", "binary", "newlines"]
+        kinds = ["exact", "short", "huge", "long", "empty", "missing", "onecol", "text", "nan", "hugeline", "dupline", "binary", "newlines", "short", "huge"]
         kind = kinds[(i // 12 * 2 + (1 if i % 12 == 9 else 0)) % len(kinds)]       # every kind in every run (stratified, not sampled)
         if force and ":" in force:
             kind = force.split(":")[1]
@@ -140,6 +145,11 @@ def gen(seed, i, tier, force=None):
         if r.chance(0.5):
             o["VacuumGap"] = 0
         o["Impedance"] = "imp.dat"
+        if (i // 12) % 2 == 1:
+            # ... together with tracked particles (what the file does to the wake reaches them through the kick map)
+            o["_trkkind"] = "edges"
+            o["tracking"] = "trk.txt"
+            o["FPTrack"] = r.randint(0, 3)
     if cls in ("tracking", "mixed"):
         kinds = ["edges", "outside", "empty", "malformed", "many", "missing"]
         kind = kinds[(i // 12) % len(kinds)] if cls == "tracking" else r.choice(kinds)
@@ -339,7 +349,7 @@ def run(ctx):
     ctx.assumptions = ASSUME
     ctx.rule = ("case = one run of the real program in the ASan/UBSan build (a sampled subset again under valgrind memcheck) from one of the generator classes: grid (size 4..300, orders, stencils, FP types, shifts up to n/3, padding 0.5..9, rounding), "
                 "buckets (2-6 buckets with empty ones, spacing from nearly touching upward with every fractional part, with/without rounding; a third touching with a spacing that rounds up to the next cell, 5-6 buckets, first and last occupied, no rounding of the padded length), rf (models x noise x modulation), kicks (1..13 steps per period: kicks beyond the grid), "
-                "impfile (exact/short/long/empty/missing/one column/text/NaN tokens/huge line numbers/duplicates/binary), tracking (edge, outside, empty, malformed, many, missing), "
+                "impfile (exact/short/long/empty/missing/one column/text/NaN tokens/values at the edge of single precision/huge line numbers/duplicates/binary; half of them together with tracked particles), tracking (edge, outside, empty, malformed, many, missing), "
                 "startdist (.txt ok/empty/malformed/outside; .h5 same/smaller/larger/rank 2/rank 5/zero records/two and three bunches/non-square/garbage; unknown extension; every kind with one bunch current and, every third round, with 2-4 bucket currents; file kinds are cycled through, not sampled); distinct by option set and file kind")
     th = ctx.tier == "thorough"
     n = 6000 if th else 360
@@ -379,6 +389,8 @@ def run(ctx):
             ctx.ev("start_files_with_several_bucket_currents")
         if sub:
             ctx.ev("filekind." + sub)
+        if res["opts"].get("_impkind") and res["opts"].get("tracking"):
+            ctx.ev("impedance_files_with_tracking")
         for key, what, rep in res["viol"]:
             ctx.violation(key, what + " [class %s%s]" % (res["cls"], "/" + sub if sub else ""), dict(cmd=res["cmd"], options=res["opts"], report=rep))
         if len(ctx.samples) < 8 and res["i"] % 37 == 0:
@@ -387,4 +399,4 @@ def run(ctx):
     ctx.min_events = {}
     c17_fuzz.run(ctx)
     ctx.min_events.update({"runs.asan": n * 3 // 4, "runs.memcheck": nmem // 2, "runs_that_finished": n // 3,
-                      "class.grid": 20, "class.buckets": 10, "class.impfile": 20, "class.startdist": 20, "class.tracking": 10, "class.kicks": 10, "class.rf": 10, "filekind.roundup": 4, "start_files_with_several_bucket_currents": 4, "filekind.h5_two_bunch": 1, "filekind.h5_two_bunch+buckets": 1, "filekind.short": 2, "filekind.edges": 2})
+                      "class.grid": 20, "class.buckets": 10, "class.impfile": 20, "class.startdist": 20, "class.tracking": 10, "class.kicks": 10, "class.rf": 10, "filekind.roundup": 4, "start_files_with_several_bucket_currents": 4, "filekind.h5_two_bunch": 1, "filekind.h5_two_bunch+buckets": 1, "filekind.short": 2, "filekind.edges": 2, "filekind.huge": 2, "impedance_files_with_tracking": 6})
